@@ -317,27 +317,36 @@ func runC06(p *core.Prog, r *core.Result) {
 		}
 	}
 	var complStores, dataStores []*ssa.Store
-	core.Instrs(done, func(in ssa.Instruction) {
-		if st, ok := in.(*ssa.Store); ok {
-			if owner, fld := core.FieldOf(st.Addr); owner != nil && owner.Obj().Name() == "module" {
-				if tested[fld] {
-					complStores = append(complStores, st)
-				}
-				if fld == "data" || fld == "err" {
-					dataStores = append(dataStores, st)
-				}
+	doneFam := family(p, done)
+	for h := range doneFam {
+		if h != done {
+			// a helper only done calls: what holds at its call site holds inside it
+			if cs := p.StaticCallers(h); len(cs) == 1 {
+				p.SetContext(h, cs[0].(ssa.Instruction))
 			}
 		}
-	})
+		core.Instrs(h, func(in ssa.Instruction) {
+			if st, ok := in.(*ssa.Store); ok {
+				if owner, fld := core.FieldOf(st.Addr); owner != nil && owner.Obj().Name() == "module" {
+					if tested[fld] {
+						complStores = append(complStores, st)
+					}
+					if fld == "data" || fld == "err" {
+						dataStores = append(dataStores, st)
+					}
+				}
+			}
+		})
+	}
 	doneLocks := p.Locks(done)
 	okPub := len(complStores) > 0 && len(dataStores) >= 2
 	for _, ds := range dataStores {
 		one := false
 		for _, cs := range complStores {
-			if ds == cs || core.Dominates(ds, cs) {
+			if ds == cs || p.DominatesX(ds, cs) {
 				one = true
 			}
-			if ds.Block() == cs.Block() && doneLocks.MustHoldClass(ds, modM, core.ModeW) && doneLocks.MustHoldClass(cs, modM, core.ModeW) {
+			if ds.Parent() == done && cs.Parent() == done && ds.Block() == cs.Block() && doneLocks.MustHoldClass(ds, modM, core.ModeW) && doneLocks.MustHoldClass(cs, modM, core.ModeW) {
 				one = true
 			}
 		}
@@ -356,7 +365,12 @@ func runC06(p *core.Prog, r *core.Result) {
 		}
 		iff := ws.Header.Instrs[len(ws.Header.Instrs)-1].(*ssa.If)
 		waitOnTrue := core.Reaches(ws.Header.Succs[0], ws.Call.(ssa.Instruction).Block(), true)
-		core.Instrs(done, func(in ssa.Instruction) {
+		var famInstrs []ssa.Instruction
+		for h := range doneFam {
+			core.Instrs(h, func(in ssa.Instruction) { famInstrs = append(famInstrs, in) })
+		}
+		sort.Slice(famInstrs, func(i, j int) bool { return famInstrs[i].Pos() < famInstrs[j].Pos() })
+		visitDone := func(in ssa.Instruction) {
 			st, ok := in.(*ssa.Store)
 			if !ok {
 				return
@@ -446,7 +460,10 @@ func runC06(p *core.Prog, r *core.Result) {
 			v := eval(iff.Cond)
 			ends := v >= 0 && (v == 1) != waitOnTrue
 			r.Check(ends, "R6.10", fmt.Sprintf("dawn.(*module).done#ends-wait:%s", fld), p.InstrPos(st), "done sets module."+fld+" to a value that makes the wait loop exit, whatever its arguments", "the wait loop tests module."+fld+", and done stores a value there that does not always end the loop (a result that is nil for a module that failed before it ran: a missing file, a syntax error): every other loader of that module then sleeps for ever and Load hangs")
-		})
+		}
+		for _, in := range famInstrs {
+			visitDone(in)
+		}
 	}
 	r.Floor("R6.10", nEnd, 1, "stores in done to the state the wait loop tests")
 	// R6.11 the registry key determines the file
@@ -454,7 +471,7 @@ func runC06(p *core.Prog, r *core.Result) {
 	// data/err are only written in done (and read in wait after the loop)
 	for _, fn := range p.ModuleFuncs() {
 		core.Instrs(fn, func(in ssa.Instruction) {
-			if st, ok := in.(*ssa.Store); ok && fn != done {
+			if st, ok := in.(*ssa.Store); ok && !doneFam[fn] {
 				if core.IsField(st.Addr, pkgRoot, "module", "data") || core.IsField(st.Addr, pkgRoot, "module", "loaded") {
 					if _, fresh := core.Unwrap(st.Addr.(*ssa.FieldAddr).X).(*ssa.Alloc); !fresh {
 						r.Bad("R6.4", fname(fn)+"#writes-module-result", p.InstrPos(st), "module result state is written outside (*module).done")
@@ -465,10 +482,37 @@ func runC06(p *core.Prog, r *core.Result) {
 	}
 
 	// R6.7 the loader that registered a module marks it loaded on every exit (otherwise later waiters sleep forever)
+	loadFam := family(p, load)
+	var callsDoneAlways func(h *ssa.Function, depth int) bool
+	callsDoneAlways = func(h *ssa.Function, depth int) bool {
+		if h == nil || !loadFam[h] || h == load || depth > 2 {
+			return false
+		}
+		isD := func(x ssa.Instruction) bool {
+			c, ok := x.(*ssa.Call)
+			if !ok {
+				return false
+			}
+			return core.Callee(c) == done && len(c.Call.Args) > 0 && c.Call.Args[0] == ssa.Value(h.Params[0]) || callsDoneAlways(core.Callee(c), depth+1)
+		}
+		for _, ret := range core.ReturnsOf(h) {
+			if core.BlockReachesAvoiding(h.Blocks[0], ret, isD) {
+				return false
+			}
+		}
+		return len(core.ReturnsOf(h)) > 0
+	}
 	for i, ret := range core.ReturnsOf(load) {
 		isDone := func(x ssa.Instruction) bool {
 			c, ok := x.(*ssa.Call)
-			return ok && core.Callee(c) == done && len(c.Call.Args) > 0 && c.Call.Args[0] == ssa.Value(load.Params[0])
+			if !ok {
+				return false
+			}
+			if core.Callee(c) == done && len(c.Call.Args) > 0 && c.Call.Args[0] == ssa.Value(load.Params[0]) {
+				return true
+			}
+			// a helper of load that publishes the result on every path, called on the module being loaded
+			return len(c.Call.Args) > 0 && c.Call.Args[0] == ssa.Value(load.Params[0]) && callsDoneAlways(core.Callee(c), 0)
 		}
 		skipped := core.BlockReachesAvoiding(load.Blocks[0], ret, isDone)
 		r.Check(!skipped, "R6.7", fmt.Sprintf("dawn.(*module).load#done-on-every-exit:return-%d", i+1), p.InstrPos(ret), "this exit is reached only after m.done(...) published the result", "this exit returns without calling m.done: the module stays registered but never becomes loaded, so every other module that loads it waits forever (Load hangs)")
@@ -484,7 +528,7 @@ func runC06(p *core.Prog, r *core.Result) {
 				if !inRoot {
 					continue // other packages (cmd/dawn REPL etc.) do not load project modules
 				}
-				r.Check(fn == load, "R6.5", fname(fn)+"#ExecFile", p.InstrPos(c.(ssa.Instruction)), "module code is executed by (*module).load", "module code is executed outside (*module).load: the once-only registry is bypassed")
+				r.Check(loadFam[fn], "R6.5", fname(fn)+"#ExecFile", p.InstrPos(c.(ssa.Instruction)), "module code is executed by (*module).load (or a helper only it calls)", "module code is executed outside (*module).load: the once-only registry is bypassed")
 			}
 		}
 	}
@@ -804,6 +848,45 @@ func checkChainWalk(p *core.Prog, r *core.Result, wait *ssa.Function, wp *ssa.Pa
 		}
 	}
 	r.Check(adv, "R6.6", construct, p.InstrPos(phi), "the chain walk advances from the current element (x = x.loading)", "the chain walk never advances beyond the first edge (the loop variable is refreshed from a loop-invariant module): cycles of length >= 3 are not detected and the walk spins or hangs")
+}
+
+// onlyCalledFrom: h is a function of the package that is called (statically, never used as a value) only from the
+// functions in owners: it is part of them.
+func onlyCalledFrom(p *core.Prog, h *ssa.Function, owners map[*ssa.Function]bool) bool {
+	if h == nil || h.Blocks == nil || len(p.FuncValueUses(h)) > 0 {
+		return false
+	}
+	callers := p.StaticCallers(h)
+	if len(callers) == 0 {
+		return false
+	}
+	for _, c := range callers {
+		if !owners[c.Parent()] {
+			return false
+		}
+	}
+	return true
+}
+
+// family: fn together with the helpers of its package that only it (or such helpers) call.
+func family(p *core.Prog, fn *ssa.Function) map[*ssa.Function]bool {
+	fam := map[*ssa.Function]bool{fn: true}
+	for changed := true; changed; {
+		changed = false
+		for f := range fam {
+			for _, c := range core.Calls(f) {
+				h := core.Callee(c)
+				if h == nil || fam[h] || h.Pkg != fn.Pkg {
+					continue
+				}
+				if onlyCalledFrom(p, h, fam) {
+					fam[h] = true
+					changed = true
+				}
+			}
+		}
+	}
+	return fam
 }
 
 // checkRegistryKeyCanonical implements R6.11.
